@@ -164,7 +164,9 @@ class Tensor:
         return result
 
     def __mod__(self, other):
-        if self.onnx_dtype in {
+        # The converter translates `x % f` with a Python float f to Mod(x, f, fmod=1),
+        # whatever the type of x: do the same here.
+        if isinstance(other, float) or self.onnx_dtype in {
             ir.DataType.FLOAT,
             ir.DataType.DOUBLE,
             ir.DataType.FLOAT16,
